@@ -10,6 +10,7 @@ narrow phase `hit` and `urdf_utils.self_collision_whitelists` over an abstract `
                                carries the transform manager's current transform, the dict
                                keys are the added frames, payload and tree are rebuilt from
                                exactly the refreshed colliders;
+  `fill_tree_poses_current`  — the same for `fill_tree_with_colliders`;
   `poses_current_tree`       — tree layer (C05 `T.insert`): that rebuild yields a tight tree
                                whose leaves are exactly the current AABBs;
 * `overlapping_colliders_exact`, `other_bvh_exact`, `self_exact`
@@ -75,6 +76,25 @@ theorem poses_current (ops : List (Op ℝ)) (getT : Frame → Pose ℝ) (s' : St
       · intro f c hfc
         rw [hc] at hfc
         exact pose_refreshed getT s1.colliders f c hfc
+
+theorem addedFrames_adds (objs : List (Frame × Collider ℝ)) :
+    addedFrames (objs.map fun p => Op.add p.1 p.2) = objs.map (·.1) := by
+  induction objs with
+  | nil => rfl
+  | cons p r ih => simp [addedFrames, ih]
+
+/-- **C06, poses, `fill_tree_with_colliders`.**  Filling an empty BVH from URDF collision
+objects (whatever colliders `_make_collider` built, at whatever pose) leaves every collider
+at the transform manager's current transform, with exactly the objects' frames as keys. -/
+theorem fill_tree_poses_current (objs : List (Frame × Collider ℝ)) (getT : Frame → Pose ℝ)
+    (s' : State ℝ) (h : fillTreeWithColliders State.empty objs getT = .ok s') :
+    (dKeys s'.colliders).Nodup ∧ (∀ f, f ∈ dKeys s'.colliders ↔ f ∈ objs.map (·.1)) ∧
+      (∀ f c, (f, c) ∈ s'.colliders → c.pose = getT f) ∧
+      rebuild Aabb.Tree.empty #[] s'.colliders = .ok (s'.tree, s'.payload) := by
+  obtain ⟨s1, _, _, hn, hk, hp, _, hr⟩ := poses_current _ getT s' h
+  refine ⟨hn, ?_, fun f c hfc => (hp f c hfc).1, hr⟩
+  intro f
+  rw [hk f, addedFrames_adds]
 
 /-- **C06, poses, tree layer.**  Rebuilding the tree from the current AABBs `b₀, b₁, …` of the
 colliders (each with `lo ≤ hi`) by repeated `insert_aabb` — on the tree layer, C05's
